@@ -10,7 +10,7 @@
 From Coq Require Import String.
 From Coq Require Import List NArith ZArith Bool Arith.
 From AV Require Import model.Proto model.Chain model.Ast model.Ir model.Peg model.Printer model.Translate
-  model.AstProto model.Alloc model.Interp.
+  model.Alloc model.Interp.
 Import ListNotations.
 Open Scope Z_scope.
 
@@ -118,12 +118,11 @@ Definition render (tmpl : list N) (d : gendata) : outcome (list N) :=
   else if str_eqb tmpl $"script" then Ok (render_script (g_script d))
   else Err ($"template").
 
-(* `addchain gen -type T`: parse, PrepareData, Generate.  Scripts with a shift above 4096 are not
-   evaluated by the check (one chain element per doubling): both sides answer "toolarge". *)
+(* `addchain gen -type T`: parse, PrepareData, Generate.  No size limit here, as in the Go code; the
+   correspondence check does not evaluate scripts with a shift above 4096 (one chain element per doubling):
+   that convention lives in dispatch/C06.v and in the harness only. *)
 Definition gen (cfg : alloc_cfg) (tmpl src : list N) : outcome (list N) :=
-  obind (parse src) (fun s =>
-    if script_huge s then Err ($"toolarge")
-    else obind (prepare cfg s) (render tmpl)).
+  obind (parse src) (fun s => obind (prepare cfg s) (render tmpl)).
 
 (* cmd/addchain/gen.go: Allocator{Input: "x", Output: "z", Format: "t%d"} *)
 Definition default_cfg : alloc_cfg := mkCfg ($"x") ($"z") ($"t").
